@@ -294,7 +294,7 @@ func cmdStream(args []string) *Result {
 			}
 		case "c01":
 			in := bytesOf(anyInts(rec["input"]))
-			for entry := 0; entry < 2; entry++ {
+			for entry := 0; entry < 4; entry++ {
 				t := runC01(in, entry)
 				res.Evaluations++
 				if why := c01OK(t, in); why != "" {
@@ -469,7 +469,7 @@ func streamC08(res *Result, enc *shardWriter, tlcOuts []string) {
 
 type c01Trace struct {
 	ID    int     `json:"id"`
-	Entry int     `json:"entry"` // 0 = Parse, 1 = NewBlockParser
+	Entry int     `json:"entry"` // 0 = Parse, 1 = NewBlockParser over a one-shot reader, 2 = one line per Read, 3 = three bytes per Read
 	In    []int   `json:"in"`    // input bytes (only when short; see Long)
 	Long  int     `json:"long"`  // 1: input too long to ship byte-wise; derived scalars are logged instead
 	N     int     `json:"n"`     // input length
@@ -491,9 +491,16 @@ func runC01(input []byte, entry int) *c01Trace {
 	if entry == 0 {
 		blocks, refs = commonmark.Parse(buf)
 		t.Err = 1
-	} else {
+	} else if entry == 1 {
 		var err error
 		blocks, refs, err = streamParse(buf)
+		t.Err = errID(err, nil)
+	} else {
+		// entries 2 and 3: the same streaming route over a reader that delivers one line per Read (so that some
+		// Read ends exactly where nothing is pending) / three bytes per Read; every block is looked at only after
+		// the last one has been returned, so a Source that a later Read overwrote is seen.
+		var err error
+		blocks, refs, err = streamParseFrom(&lineReader{data: buf, fixed: map[int]int{2: 0, 3: 3}[entry]})
 		t.Err = errID(err, nil)
 	}
 	long := len(input) > 96
@@ -544,6 +551,55 @@ func runC01(input []byte, entry int) *c01Trace {
 		t.Same = 1
 	}
 	return t
+}
+
+// lineReader delivers one line (up to and including its line ending) per Read, or fixed-size chunks.
+type lineReader struct {
+	data  []byte
+	fixed int
+}
+
+func (r *lineReader) Read(p []byte) (int, error) {
+	if len(r.data) == 0 {
+		return 0, io.EOF
+	}
+	n := r.fixed
+	if n == 0 {
+		n = len(r.data)
+		for i, c := range r.data {
+			if c == '\n' || (c == '\r' && (i+1 >= len(r.data) || r.data[i+1] != '\n')) {
+				n = i + 1
+				break
+			}
+		}
+	}
+	if n > len(r.data) {
+		n = len(r.data)
+	}
+	if n > len(p) {
+		n = len(p)
+	}
+	copy(p, r.data[:n])
+	r.data = r.data[n:]
+	return n, nil
+}
+
+func streamParseFrom(rd io.Reader) ([]*commonmark.RootBlock, commonmark.ReferenceMap, error) {
+	p := commonmark.NewBlockParser(rd)
+	var blocks []*commonmark.RootBlock
+	refs := make(commonmark.ReferenceMap)
+	for {
+		b, err := p.NextBlock()
+		if err != nil {
+			ip := &commonmark.InlineParser{ReferenceMatcher: refs}
+			for _, rb := range blocks {
+				ip.Rewrite(rb)
+			}
+			return blocks, refs, err
+		}
+		blocks = append(blocks, b)
+		refs.Extract(b.Source, b.AsNode())
+	}
 }
 
 func isBlankBytes(b []byte) bool {
@@ -613,7 +669,7 @@ func streamC01(res *Result, enc *shardWriter) {
 	id := 0
 	emit := func(doc []byte) {
 		d := append([]byte(nil), doc...)
-		for entry := 0; entry < 2; entry++ {
+		for entry := 0; entry < 4; entry++ {
 			var t *c01Trace
 			pm := ""
 			func() {
@@ -653,6 +709,8 @@ func streamC01(res *Result, enc *shardWriter) {
 		maxLen = 6
 	}
 	exhaustive(alpha, maxLen, emit)
+	// white space that is NOT a blank-line character (form feed, vertical tab, NBSP, EM SPACE, NEL): a line made of it is content
+	exhaustive([]string{"a", " ", "\n", "\f", "\v", "\u00a0", "\u2003", "\u0085", "\r"}, maxLen-1, emit)
 	src := newSource(1)
 	n := 8000
 	if thorough {
